@@ -323,3 +323,57 @@ pub async fn identity_claims_in_headers(a: &Value) -> Value {
     }
     json!({"names": names.len(), "replies": replies, "requests": requests})
 }
+
+/// C17, the hand-written half on real networks: a typed handler behind rpc::server::Rpc (bincode: String -> u64) and a typed caller through
+/// rpc::client::Rpc.  The handler answers a message, or an error status with a code, a message and headers of its own; callers also send payloads the
+/// server cannot decode and expect payloads the server does not send.
+pub async fn typed_rpc_roundtrip(_a: &Value) -> Value {
+    use anemo::rpc::codec::BincodeCodec;
+    use anemo::rpc::Status;
+    use anemo::types::response::StatusCode;
+    let svc = tower::ServiceExt::boxed_clone(tower::service_fn(|request: Request<Bytes>| async move {
+        let method = tower::service_fn(|request: Request<String>| async move {
+            let s = request.into_body();
+            match s.as_str() {
+                "fail-400" => Err(Status::new_with_message(StatusCode::BadRequest, "bad input: é").with_header("x-detail", "d1").with_header("retry-after", "7")),
+                "fail-500" => Err(Status::internal("boom")),
+                "fail-429" => Err(Status::new(StatusCode::TooManyRequests).with_header("wait-nanos", "12345")),
+                _ => Ok::<_, Status>(Response::new(s.len() as u64).with_header("x-len", s.len().to_string())),
+            }
+        });
+        let mut rpc = anemo::rpc::server::Rpc::new(BincodeCodec::<u64, String>::default(), BincodeCodec::<u64, String>::default());
+        Ok::<_, std::convert::Infallible>(rpc.unary(method, request).await)
+    }));
+    let mut c = Config::default();
+    c.connect_timeout_ms = Some(3000);
+    let server = anemo::Network::bind("127.0.0.1:0").server_name("verif").private_key([111; 32]).config(c).start(svc).expect("server");
+    let caller = net(112, 10);
+    let sid = caller.connect(server.local_addr()).await.expect("connect");
+    let mut out = Vec::new();
+    for (input, want_status, want_msg, want_headers) in [("hello", 200u16, None, vec![("x-len", "5")]), ("", 200, None, vec![("x-len", "0")]),
+            ("fail-400", 400, Some("bad input: é"), vec![("x-detail", "d1"), ("retry-after", "7")]), ("fail-500", 500, Some("boom"), vec![]), ("fail-429", 429, None, vec![("wait-nanos", "12345")])] {
+        let mut rpc = anemo::rpc::client::Rpc::new(caller.peer(sid).expect("peer"));
+        let r = tokio::time::timeout(Duration::from_secs(3), rpc.unary(Request::new(input.to_owned()).with_route("/m"), BincodeCodec::<String, u64>::default())).await;
+        let got = match r {
+            Err(_) => json!({"outcome": "no answer"}),
+            Ok(Ok(resp)) => json!({"outcome": "message", "status": resp.status().to_u16(), "value": resp.body(), "headers_ok": want_headers.iter().all(|(k, v)| resp.headers().get(*k).map(|s| s.as_str()) == Some(*v)), "from_server": resp.peer_id() == Some(&sid)}),
+            Ok(Err(st)) => json!({"outcome": "status", "status": st.status().to_u16(), "message": st.headers().get("status-message"), "headers_ok": want_headers.iter().all(|(k, v)| st.headers().get(*k).map(|s| s.as_str()) == Some(*v)), "from_server": st.peer_id() == Some(&sid)}),
+        };
+        let ok = if want_status == 200 { got["outcome"] == "message" && got["status"] == 200 && got["value"] == json!(input.len() as u64) && got["headers_ok"] == true && got["from_server"] == true }
+                 else { got["outcome"] == "status" && got["status"] == want_status && got["headers_ok"] == true && got["from_server"] == true && (want_msg.is_none() || got["message"] == json!(want_msg)) };
+        out.push(json!({"case": format!("handler input {input:?}"), "ok": ok, "observed": got}));
+    }
+    // the caller sends a payload the server cannot decode (a u64 where a String is expected: 8 bytes that are a huge length prefix)
+    let mut rpc = anemo::rpc::client::Rpc::new(caller.peer(sid).expect("peer"));
+    let r = tokio::time::timeout(Duration::from_secs(3), rpc.unary(Request::new(u64::MAX).with_route("/m"), BincodeCodec::<u64, u64>::default())).await;
+    let got = match r { Err(_) => json!({"outcome": "no answer"}), Ok(Ok(resp)) => json!({"outcome": "message", "value": resp.body()}), Ok(Err(st)) => json!({"outcome": "status", "status": st.status().to_u16()}) };
+    out.push(json!({"case": "request payload the server cannot decode", "ok": got["outcome"] == "status" && got["status"] != 200, "observed": got}));
+    // the caller expects a payload type the server does not send (a String where a u64 comes back)
+    let mut rpc = anemo::rpc::client::Rpc::new(caller.peer(sid).expect("peer"));
+    let r = tokio::time::timeout(Duration::from_secs(3), rpc.unary(Request::new("hello".to_owned()).with_route("/m"), BincodeCodec::<String, String>::default())).await;
+    let got = match r { Err(_) => json!({"outcome": "no answer"}), Ok(Ok(resp)) => json!({"outcome": "message", "value": resp.body()}), Ok(Err(st)) => json!({"outcome": "status", "status": st.status().to_u16()}) };
+    out.push(json!({"case": "reply payload the caller cannot decode", "ok": got["outcome"] == "status", "observed": got}));
+    let still = tokio::time::timeout(Duration::from_secs(3), caller.rpc(sid, Request::new(Bytes::from(vec![5u8, 0, 0, 0, 0, 0, 0, 0, b'h', b'e', b'l', b'l', b'o'])).with_route("/m"))).await;
+    out.push(json!({"case": "the server still serves afterwards", "ok": matches!(still, Ok(Ok(ref r)) if r.status().to_u16() == 200), "observed": Value::Null}));
+    json!({"cases": out})
+}
